@@ -19,9 +19,10 @@ static void jstr(const char *s) {
     vh_bprintf(&b, "\"");
 }
 static int first;
+static int sentinel;            /* the userdata handed to every callback */
+static const char *handler = "cb";
 static QAC_CB(cb) {
-    (void) userdata;
-    vh_bprintf(&b, "%s{\"otype\":%d,\"shown\":", first ? "" : ",", data->otype); first = 0;
+    vh_bprintf(&b, "%s{\"h\":\"%s\",\"ud\":%s,\"otype\":%d,\"shown\":", first ? "" : ",", handler, vh_bool(userdata == (void *) &sentinel), data->otype); first = 0;
     jstr(data->argv[0]);
     vh_bprintf(&b, ",\"section\":%d,\"sections\":%d,\"level\":%d,\"args\":[", (int) data->section, (int) data->sections, data->level);
     for (int i = 1; i < data->argc; i++) { if (i > 1) vh_bprintf(&b, ","); jstr(data->argv[i]); }
@@ -31,11 +32,17 @@ static QAC_CB(cb) {
     vh_bprintf(&b, "]}");
     return NULL;
 }
+static QAC_CB(defcb) { handler = "def"; char *r = cb(data, userdata); handler = "cb"; return r; }
+static QAC_CB(cbfail) {            /* a callback that refuses its directive: the parser must stop there with this message */
+    (void) cb(data, userdata);
+    return (data->argc > 1 && !strcmp(data->argv[1], "bad")) ? strdup("boom") : NULL;
+}
 static qaconf_option_t OPTS[] = {
     {"Listen", QAC_TAKE_INT, cb, 0, QAC_SECTION_ALL}, {"Flag", QAC_TAKE_BOOL, cb, 0, QAC_SECTION_ROOT},
     {"Domain", QAC_TAKE_STR, cb, 2, QAC_SECTION_ROOT}, {"Host", QAC_TAKE_STR, cb, 4, 2}, {"TTL", QAC_TAKE_INT, cb, 0, 2 | 4},
     {"Mix", QAC_TAKEALL | QAC_A1_BOOL | QAC_A2_INT | QAC_AA_FLOAT, cb, 0, QAC_SECTION_ALL}, {"Pair", QAC_TAKE2, cb, 0, QAC_SECTION_ALL},
     {"Five", QAC_TAKE5 | QAC_A1_INT | QAC_A3_FLOAT | QAC_A4_INT | QAC_A5_BOOL, cb, 0, QAC_SECTION_ALL}, {"Many", QAC_TAKEALL | QAC_AA_BOOL, cb, 0, QAC_SECTION_ALL},
+    {"Quiet", QAC_TAKE_STR, NULL, 0, QAC_SECTION_ALL}, {"Fail", QAC_TAKE_STR, cbfail, 0, QAC_SECTION_ALL},
     QAC_OPTION_END };
 
 int main(int argc, char **argv) {
@@ -53,8 +60,10 @@ int main(int argc, char **argv) {
             vh_where = "aconf"; vh_watchdog(5);
             qaconf_t *c = qaconf();
             c->addoptions(c, OPTS);
+            c->setuserdata(c, &sentinel);
+            if (flags & 4) c->setdefhandler(c, defcb);
             vh_bprintf(&b, "{\"cbs\":["); first = 1;
-            int r = c->parse(c, path, (uint8_t) flags);
+            int r = c->parse(c, path, (uint8_t) (flags & 3));
             const char *em = c->errmsg(c);
             int el = 0;
             if (r < 0 && em) { const char *p = strchr(em, ':'); if (p) el = atoi(p + 1); }
